@@ -1,5 +1,5 @@
 #!/usr/bin/env python3
-"""Confirm and evaluate seeded changes delivered in /tmp/mut2/<pid>/ (patchN.diff, demoN.py, meta.json):
+"""Confirm and evaluate seeded changes delivered in $SEED_DIR/<pid>/ (patchN.diff, demoN.py, meta.json):
  1. in the scratch worktree: demo passes without the patch, fails with it, and the 266 tests pass with it;
  2. apply the patch to /repo, run our checks (target property first, extra ones on request), undo;
  3. store patch/demo/meta + our result under /verif/seeded/<pid>-<n>/.
@@ -13,7 +13,7 @@ def sh(cmd, cwd=None, env=None, timeout=3600):
 
 def main():
     pid = sys.argv[1]; extra = sys.argv[2:]
-    wt = f"/tmp/mut2/{pid}"
+    wt = os.path.join(os.environ.get("SEED_DIR", "/tmp/mut3"), pid); off = int(os.environ.get("SEED_OFFSET", "4"))
     env = {**os.environ, "PYTHONPATH": wt}
     metas = json.load(open(os.path.join(wt, "meta.json")))
     if isinstance(metas, dict): metas = [metas]
@@ -39,13 +39,13 @@ def main():
             except Exception: res["checks"] = {"error": out[-500:]}
             for k, v in res.get("checks", {}).items():
                 if isinstance(v, dict): print(f"   {k}: {'VIOLATION' if v['violation'] else 'pass'}{' (no-failing-input-found)' if v.get('no_failing_input') else ''} {v.get('what','')[:160]}")
-            d = os.path.join(ROOT, "seeded", f"{pid}-{n+2}"); os.makedirs(d, exist_ok=True)
+            d = os.path.join(ROOT, "seeded", f"{pid}-{n+off}"); os.makedirs(d, exist_ok=True)
             shutil.copy(patch, os.path.join(d, "patch.diff")); shutil.copy(demo, os.path.join(d, "demo.py"))
             det = sorted({k.split("/")[0] for k, v in res.get("checks", {}).items() if isinstance(v, dict) and v["violation"]})
             json.dump({"breaks": pid, "what_changed": meta.get("what_changed"), "needs_to_manifest": meta.get("needs_to_manifest"),
                        "author": "independent sub-agent given only the property text and a scratch worktree",
                        "confirmed_by": {"demo exit without patch": rc0, "demo exit with patch": rc1, "266 tests with patch": "pass" if rct == 0 else "fail"},
-                       "ran": [f"git -C /repo apply seeded/{pid}-{n+2}/patch.diff", f"./check {pid} quick (VERIF_SEED=1,2)", "git -C /repo checkout -- ."],
+                       "ran": [f"git -C /repo apply seeded/{pid}-{n+off}/patch.diff", f"./check {pid} quick (VERIF_SEED=1,2)", "git -C /repo checkout -- ."],
                        "our_checks": res.get("checks"), "detected_by": det}, open(os.path.join(d, "meta.json"), "w"), indent=1)
     return 0
 
